@@ -244,7 +244,10 @@ func (c *Channel) Invoke(ctx context.Context, method string, req, resp interface
 	sts := internal.UnaryServerTransportStream{Name: method}
 
 	defer cancel()
-	ch := make(chan frame, 1)
+	// The buffer holds every frame the server goroutine can produce (headers,
+	// data, trailers, error), so that it never has to drop one when the context
+	// ends: the caller sees either the complete result or the context error.
+	ch := make(chan frame, 4)
 	go func() {
 		defer func() {
 			sts.Finish()
@@ -256,23 +259,23 @@ func (c *Channel) Invoke(ctx context.Context, method string, req, resp interface
 		v, err := md.Handler(handler, ctx, codec, c.unaryInterceptor)
 		if h := sts.GetHeaders(); len(h) > 0 {
 			verifAt("unary.server.before-headers", ctx)
-			_ = writeMessage(ctx, nil, ch, frame{headers: h})
+			ch <- frame{headers: h}
 		}
 		if err == nil {
 			if isNil(v) {
 				err = status.Errorf(codes.Internal, "handler returned neither error nor response message")
 			} else {
 				verifAt("unary.server.before-data", ctx)
-				_ = writeMessage(ctx, nil, ch, frame{data: v})
+				ch <- frame{data: v}
 			}
 		}
 		if t := sts.GetTrailers(); len(t) > 0 {
 			verifAt("unary.server.before-trailers", ctx)
-			_ = writeMessage(ctx, nil, ch, frame{trailers: t})
+			ch <- frame{trailers: t}
 		}
 		if err != nil {
 			verifAt("unary.server.before-error", ctx)
-			_ = writeMessage(ctx, nil, ch, frame{err: err})
+			ch <- frame{err: err}
 		}
 	}()
 
